@@ -821,4 +821,97 @@ Section Sim.
     rewrite (call_step P' n1 (rebind le ar fr) l [] d' (combine (vars (dctx d)) ws')); auto.
     rewrite Hctx, rebind_snd by auto. apply bind_combine; auto.
   Qed.
+  Lemma lin_invoke_form : forall f vr tag t (ar : ctx) c m,
+    (forall x, In x (ids ar) -> x <= m) -> idn vr <= m ->
+    exists fr, same_shape ar fr /\
+      (fst (lin (S f) (Invoke vr tag t ar) c m) =
+         Substitute (combine (fr ++ [mkb vr Cns t]) (vars (ar ++ [mkb vr Cns t]))) (Invoke vr tag t []) \/
+       (fst (lin (S f) (Invoke vr tag t ar) c m) = Invoke vr tag t [] /\ c = ar ++ [mkb vr Cns t] /\
+        fr ++ [mkb vr Cns t] = ar ++ [mkb vr Cns t])).
+  Proof.
+    intros f vr tag t ar c m Hb Hv. rewrite lin_invoke.
+    destruct (ctx_eqb c (ar ++ [mkb vr Cns t])) eqn:Eq.
+    - exists ar. split; [apply same_shape_refl|]. right. apply ctx_eqb_eq in Eq. auto.
+    - destruct (freshen ar [idn vr] m) as [fr m1] eqn:Ef.
+      destruct (freshen_positions _ _ _ _ _ Ef) as [F2 _]. exists fr. split; auto.
+  Qed.
+
+  (* a method body: parameters bound to related values in front of related closure environments *)
+  Lemma erel_method : forall rho (ccl : ctx) body (ws ws' : list value) ne_c le_c F,
+    untouched rho (ids ccl) -> Forall2 vrel ws ws' -> length (vars ccl) = length ws ->
+    (forall x, In x (fv body) -> ~ In x (ids ccl) -> In x F) ->
+    erel rho F ne_c le_c ->
+    erel rho (fv body) (combine (vars ccl) ws ++ ne_c) (combine (vars ccl) ws' ++ le_c).
+  Proof.
+    intros rho ccl body ws ws' ne_c le_c F Hu Hws Hlen HF He x Hx.
+    assert (Hlen' : length (vars ccl) = length ws') by (rewrite Hlen; eapply F2_length; eauto).
+    destruct (in_dec N.eq_dec x (ids ccl)) as [Hin|Hnin].
+    - rewrite (untouched_sub_n rho (ids ccl)) by auto.
+      destruct (lookup_combine_F2 vrel (vars ccl) ws ws' x Hws Hlen) as [w [w' [L1 [L2 V]]]].
+      { rewrite ids_vars. auto. }
+      exists w, w'. rewrite !lookup_app, L1, L2. auto.
+    - destruct (He x (HF x Hx Hnin)) as [w [w' [L1 [L2 V]]]].
+      exists w, w'. split; [|split; auto].
+      + rewrite lookup_app.
+        assert (E : lookup (combine (vars ccl) ws) x = None).
+        { apply lookup_None. unfold env_ids. rewrite <- (map_map fst idn), combine_map_fst by auto. rewrite ids_vars. auto. }
+        rewrite E. auto.
+      + rewrite lookup_app.
+        assert (E : lookup (combine (vars ccl) ws') (sub_n rho x) = None).
+        { apply lookup_None. unfold env_ids. rewrite <- (map_map fst idn), combine_map_fst by auto. rewrite ids_vars.
+          intros Hc. destruct (Hu _ Hc) as [Y1 Y2].
+          destruct (N.eq_dec x (sub_n rho x)) as [E|E]; [rewrite <- E in Hc; auto|].
+          apply (sub_n_untouched_ne rho x (sub_n rho x) Y1 Y2); auto. }
+        rewrite E. auto.
+  Qed.
+
+  (* ---------------- invoke ---------------- *)
+  Lemma sim_invoke : forall n, sim_n n -> forall rho c v tag t args s' ne le out o,
+    srel rho c (Invoke v tag t args) s' -> map fst le = vars c -> erel rho (fv (Invoke v tag t args)) ne le ->
+    exec_named (S n) P ne (Invoke v tag t args) out = o -> good o -> exists n', exec_linear n' P' le s' out = o.
+  Proof.
+    intros n IH rho c v tag t args s' ne le out o Hs Hsh He Hrun Hg.
+    apply srel_fuel in Hs. destruct Hs as [f [m [Hsz [Hns [Hu [Hax [Hinv ->]]]]]]].
+    simpl sub_s in *. simpl in Hax.
+    assert (I1 : NoDup (ids c)) by apply Hinv.
+    assert (I4 : forall x, In x (ids c) -> x <= m) by apply Hinv.
+    set (ar := map (sub_b rho) args) in *. set (vr := sub_id rho v) in *.
+    apply andb_true_iff in Hax. destruct Hax as [Hax Hargs].
+    apply andb_true_iff in Hax. destruct Hax as [Hv Hok].
+    assert (Har : forall b, In b ar -> In (idn (bvar b)) (ids c)) by (apply has_b_sub_ids; auto).
+    assert (Hvc : In (idn vr) (ids c)) by (eapply has_In_ids; eauto).
+    destruct (lin_invoke_form f vr tag t ar c m) as [fr [Hshape Hform]]; auto.
+    { intros x Hx. apply In_ids_ex in Hx. destruct Hx as [b [B1 B2]]. subst. auto. }
+    (* named step *)
+    simpl in Hrun. unfold lookup_id in Hrun.
+    destruct (He (idn v)) as [w [w' [L1 [L2 V]]]]; [simpl; apply add_In; auto|].
+    rewrite L1 in Hrun.
+    destruct w as [z|ty0 tg0 fs0|ty0 cls ne_c]; try (subst; exfalso; eapply finish_stuck_not_good; eauto; fail).
+    destruct (find_clause cls tag) as [cl|] eqn:Ef; [|subst; exfalso; eapply finish_stuck_not_good; eauto].
+    destruct (lookups ne (vars args)) as [ws|] eqn:Ew; [|subst; exfalso; eapply finish_stuck_not_good; eauto].
+    destruct (bind (vars (cl_ctx cl)) ws) as [e1|] eqn:Eb; [|subst; exfalso; eapply finish_stuck_not_good; eauto].
+    apply bind_Some_length in Eb. destruct Eb as [Hlen ->].
+    inversion V as [| |ty1 cls1 cls' ne1 le_c rhoc cc Hshc Hcls Hec]; subst ty1 cls1 ne1 w'.
+    destruct (find_clause_F2 _ cls cls' tag cl Hcls Ef) as [cl' [Ef' [[Hctx [Hucl Hsrel]] Hin]]].
+    assert (Hws : Forall2 vrel ws (map (fun b => getv le (idn (bvar b))) ar)).
+    { eapply args_vrel; eauto. intros b Hb. simpl. apply add_In. right. apply union_In. left. apply In_ids; auto. }
+    set (ws' := map (fun b => getv le (idn (bvar b))) ar) in *.
+    assert (Hlen' : length (vars (cl_ctx cl)) = length ws') by (rewrite Hlen; eapply F2_length; eauto).
+    destruct (IH rhoc (cl_ctx cl ++ cc) (cl_body cl) (cl_body cl')
+                 (combine (vars (cl_ctx cl)) ws ++ ne_c) (combine (vars (cl_ctx cl)) ws' ++ le_c) out o) as [n1 Hn1]; auto.
+    { rewrite map_app, combine_map_fst, vars_app by auto. rewrite Hshc. auto. }
+    { apply erel_method with (F := fv_clauses cls); auto.
+      intros x Hx Hnx. apply fv_clauses_In. exists cl; auto. }
+    assert (Hfrlen : length fr = length ar) by (symmetry; apply same_shape_length; auto).
+    destruct (wrap_exec P' c le (fr ++ [mkb vr Cns t]) (ar ++ [mkb vr Cns t]) (Invoke vr tag t [])
+                        (fst (lin (S f) (Invoke vr tag t ar) c m)) (S n1) out Hsh I1) as [j Hj];
+      [rewrite !app_length; simpl; lia| |exact Hform|].
+    { intros b Hb. apply in_app_or in Hb. destruct Hb as [Hb|[<-|[]]]; auto. }
+    exists (j + S n1)%nat. rewrite Hj. rewrite rebind_app by auto.
+    assert (Eone : rebind le [mkb vr Cns t] [mkb vr Cns t] = [(vr, VClo ty0 cls' le_c)]).
+    { unfold rebind; simpl. unfold vr at 2. rewrite sub_id_n, (getv_Some _ _ _ L2). auto. }
+    rewrite Eone.
+    rewrite (invoke_step P' n1 (rebind le ar fr) vr vr ty0 t tag cls' le_c cl' (combine (vars (cl_ctx cl)) ws')); auto.
+    rewrite Hctx, rebind_snd by auto. apply bind_combine; auto.
+  Qed.
 End Sim.
